@@ -338,3 +338,119 @@ func (in *Interp) srcDirs() []string {
 }
 
 var _ *ssa.Function
+
+// deepEq builds the term "a and b are structurally equal" (messages carried by Any blobs).
+func (in *Interp) deepEq(a, b Value) *Term {
+	f := in.tf
+	switch a := a.(type) {
+	case *Cell:
+		bc, ok := b.(*Cell)
+		if !ok {
+			return tFalse
+		}
+		if a == nil || bc == nil {
+			return f.Bool(a == nil && bc == nil)
+		}
+		return in.deepEq(a.V, bc.V)
+	case Struct:
+		bs, ok := b.(Struct)
+		if !ok || len(a) != len(bs) {
+			return tFalse
+		}
+		r := tTrue
+		for i := range a {
+			r = f.And(r, in.deepEq(a[i].V, bs[i].V))
+			if r.IsFalse() {
+				return r
+			}
+		}
+		return r
+	case Array:
+		bs, ok := b.(Array)
+		if !ok || len(a) != len(bs) {
+			return tFalse
+		}
+		r := tTrue
+		for i := range a {
+			r = f.And(r, in.deepEq(a[i].V, bs[i].V))
+		}
+		return r
+	case Slice:
+		bs, ok := b.(Slice)
+		if !ok || len(a.A) != len(bs.A) {
+			return tFalse
+		}
+		r := tTrue
+		for i := range a.A {
+			r = f.And(r, in.deepEq(a.A[i].V, bs.A[i].V))
+		}
+		return r
+	case Iface:
+		bi, ok := b.(Iface)
+		if !ok {
+			return tFalse
+		}
+		if a.T == nil || bi.T == nil {
+			return f.Bool(a.T == nil && bi.T == nil)
+		}
+		if a.T != bi.T {
+			return tFalse
+		}
+		return in.deepEq(a.V, bi.V)
+	case AnyBlob:
+		bb, ok := b.(AnyBlob)
+		if !ok {
+			// blob vs raw bytes: equal only if both are empty messages; be conservative
+			return tFalse
+		}
+		return in.deepEq(a.Msg, bb.Msg)
+	case *Map:
+		bm, ok := b.(*Map)
+		if !ok {
+			return tFalse
+		}
+		if a == nil || bm == nil || a.N == 0 || bm.N == 0 {
+			an, bn := 0, 0
+			if a != nil {
+				an = a.N
+			}
+			if bm != nil {
+				bn = bm.N
+			}
+			return f.Bool(an == bn)
+		}
+		panic(in.abort("unsupported", "deepEq on non-empty maps"))
+	case *Term:
+		bt, ok := b.(*Term)
+		if !ok || a.W != bt.W {
+			return tFalse
+		}
+		return f.Eq(a, bt)
+	case Str:
+		bs, ok := b.(Str)
+		if !ok {
+			return tFalse
+		}
+		return strEq(f, a, bs)
+	case float64:
+		bf, ok := b.(float64)
+		return f.Bool(ok && a == bf)
+	case nil:
+		return f.Bool(b == nil)
+	}
+	panic(in.abort("unsupported", fmt.Sprintf("deepEq on %T", a)))
+}
+
+func (in *Interp) registerWireIntrinsics() {
+	r := in.intrinsics
+	r["verifh/wire.Copy"] = func(in *Interp, fr *frame, args []Value) Value {
+		return in.deepCopy(args[0], map[*Cell]*Cell{})
+	}
+	r["verifh/wire.AnyEqual"] = func(in *Interp, fr *frame, args []Value) Value {
+		a, b := args[0].(*Cell), args[1].(*Cell)
+		if a == nil || b == nil {
+			return in.tf.Bool(a == nil && b == nil)
+		}
+		return in.deepEq(a.V, b.V)
+	}
+}
